@@ -45,6 +45,7 @@ pub enum Mode {
 
 struct Inner {
     mode: Mode,
+    fine_reg: bool, // gate also after the receive and before the reducers lock
     jitter: u64, // free mode: 0 = none, otherwise state of a xorshift generator
     seq: u64,
     roles: HashMap<ThreadId, String>,
@@ -85,6 +86,7 @@ impl Inner {
     fn new() -> Self {
         Inner {
             mode: Mode::Free,
+            fine_reg: false,
             jitter: 0,
             seq: 0,
             roles: HashMap::new(),
@@ -142,6 +144,10 @@ impl Sched {
     pub fn set_jitter(&self, seed: u64) {
         let mut g = self.inner.lock().unwrap();
         g.jitter = seed | 1;
+    }
+
+    pub fn set_fine_reg(&self, on: bool) {
+        self.inner.lock().unwrap().fine_reg = on;
     }
 
     pub fn set_mode(&self, mode: Mode) {
@@ -288,7 +294,18 @@ impl Sched {
                     Some(v) => v,
                     None => json!("?"),
                 };
-                (Class::Note, "recv", json!({"k": "recv", "n": item, "st": []}))
+                if g.fine_reg {
+                    (Class::Gate, kind, json!({"item": item}))
+                } else {
+                    (Class::Note, "recv", json!({"k": "recv", "n": item, "st": []}))
+                }
+            }
+            "red.begin" | "mw.check" => {
+                if g.fine_reg {
+                    (Class::Gate, kind, json!(0))
+                } else {
+                    (Class::Drop, kind, json!(0))
+                }
             }
             "loop.wrote" => (Class::Gate, kind, json!({"st": parsed.unwrap_or(json!("?"))})),
             "eff.spawn" => (Class::Gate, kind, json!({"n": n})),
